@@ -268,6 +268,21 @@ func cmdCheck(args []string) int {
 			}
 		}
 		changed := inLedger && le.Hash != hashes[a.Func]
+		if errs := funcErrs[a.Func]; len(errs) > 0 && a.Status != "vacuous" {
+			// The contract of this function could not be evaluated against its current code (typically a local that
+			// a clause names was renamed, or a loop was restructured): its obligations are not "passed before, fail
+			// now with the solver's reason" -- the specification itself is stale. Only a failing input on the real
+			// code makes this a violation; otherwise the function is undecided.
+			rp := writeReplay(replayDir, prop, a, v, work, *repo)
+			if rp.reproduced {
+				fmt.Printf("VIOLATION property=%s replay=%s\n", prop, rp.path)
+				violations++
+			} else {
+				fmt.Printf("UNDECIDED obligation=%s (the contract of %s is stale for the current code: %s)\n", a.Name, a.Func, firstLine(errs[0]))
+				undecided = append(undecided, a.Name)
+			}
+			continue
+		}
 		switch a.Status {
 		case "failed":
 			// a model of the negated VC exists
